@@ -13,9 +13,10 @@
 //   - accepted by the reference implementation but given no meaning by the
 //     manual (a stray quantifier, "%bxx", a descending range, a class used as a
 //     range end, a back reference to a position capture, ...): Unspec != "".
-//     Such a pattern is still parsed (with the reference implementation's
-//     reading) so that it can be run, but callers must not use the result as an
-//     oracle.
+//     Such a pattern may be parsed only partially; callers must not use the
+//     model as an oracle for it.  Unspec takes precedence over Malformed:
+//     once a part of the text has no defined reading, the model no longer
+//     claims to know where the following items begin.
 package refpattern
 
 type Kind uint8
@@ -120,6 +121,18 @@ func (ps *parser) unspec(why string) {
 	}
 }
 
+// Verdict classifies the pattern text: "unspec" (no oracle), "malformed"
+// (every reading of the manual fails) or "ok" (the model is the oracle).
+func (p *Pattern) Verdict() string {
+	switch {
+	case p.Unspec != "":
+		return "unspec"
+	case p.Malformed != "":
+		return "malformed"
+	}
+	return "ok"
+}
+
 // Parse never fails: the verdict is in Malformed / Unspec.
 func Parse(src string) *Pattern {
 	p := &Pattern{Src: src, IsPos: []bool{false}}
@@ -185,8 +198,16 @@ func Parse(src string) *Pattern {
 			i += 4
 			continue
 		case c == '%' && src[i+1] == 'f':
-			if i+2 >= n || src[i+2] != '[' {
-				p.Malformed = "%f not followed by '['"
+			if i+2 >= n {
+				p.Malformed = "%f at the end of the pattern"
+				return p
+			}
+			if src[i+2] != '[' {
+				// The manual only knows "%f[set]".  The reference
+				// implementation rejects anything else; an implementation that
+				// reads "%fx" as a frontier on the class x contradicts no
+				// sentence of the manual, so the model does not judge it.
+				ps.unspec("%f not followed by '['")
 				return p
 			}
 			set, j, bad := ps.parseSet(i + 2)
@@ -252,6 +273,11 @@ func Parse(src string) *Pattern {
 	}
 	if len(open) != 0 {
 		p.Malformed = "unfinished capture"
+	}
+	if p.NCap > 9 {
+		// The manual numbers captures %1..%9 and states no maximum; how many
+		// more an implementation accepts is its own limit.
+		ps.unspec("more than 9 captures")
 	}
 	return p
 }
